@@ -263,3 +263,18 @@ META["C17"] = {
         "sequences of 3 calls; one dimension",
     ],
 }
+
+META["C20"] = {
+    "level": "exploration",
+    "parts": 3,
+    "tiers": {
+        "quick": {"shards": 3, "deadline_s": 400,
+                  "bounds": "4 callback modes x {PLAIN, VEGAS, MULTI-CHANNEL with 1,2,3,7,12,13,14,30 channels x 4 weight patterns (equal, all but one at the floor, alternating disabled, increasing)} x integrands {0, 1, NaN sometimes, linear} x targets {0, 0.12} x 3 iterations; MPI shim with 3 ranks x 4 modes; multi_channel_summary directly for 1..14 and 30 channels x weight patterns (equal, one dominant, k disabled, increasing/decreasing, two groups, one huge) x calls {0,1,1000,10^6}; 3 types; ASan+UBSan+_GLIBCXX_ASSERTIONS, 60 s limit per case"},
+        "thorough": {"shards": 3, "deadline_s": 900, "bounds": "same as quick (the enumeration is complete at this bound)"},
+    },
+    "rule": "full product of configurations; each configuration is run once per mode and the modes are compared with the silent run (final text and the text handed to every callback invocation); distinct = distinct configurations; non-trivial = every configuration",
+    "assumptions": [
+        "a crash, exception, sanitizer report or a case exceeding 60 s is a violation",
+        "std::cout is captured by replacing its stream buffer; files are written below /verif/build/out/tmp",
+    ],
+}
